@@ -658,10 +658,34 @@ static void scGoalLazy(bool withPlanner, tse::Out &out)
         ob::PlannerStatus st = pl->solve(ptc);
         goal->stopSampling();
         P->planner = pl;
-        auto fail = [&](const std::string &k, const std::string &w) { out.fail(k.substr(0, 4) == "C01|" ? "C19|planner|goal-lazy-rrt|" + k.substr(4) : k, w); };
+        const ob::PlannerSolution *curSol = nullptr;
+        auto fail = [&](const std::string &k, const std::string &w) {
+            if (k.find("approx-difference") != std::string::npos && curSol)
+            {
+                // the goal set GROWS while the planner runs: the reported difference was measured against the goal states present at
+                // that moment, i.e. against some prefix of the final list (states are appended in order)
+                auto *pg = dynamic_cast<og::PathGeometric *>(curSol->path_.get());
+                if (pg && pg->getStateCount() > 0)
+                {
+                    const ob::State *last = pg->getState(pg->getStateCount() - 1);
+                    double best = 1e300;
+                    for (std::size_t i = 0; i < goal->getStateCount(); ++i)
+                    {
+                        best = std::min(best, sp->distance(last, goal->getState(i)));
+                        if (std::fabs(std::max(0.0, best - goal->getThreshold()) - curSol->difference_) <= 1e-9 || std::fabs(best - curSol->difference_) <= 1e-9)
+                            return;
+                    }
+                }
+            }
+            out.fail(k.substr(0, 4) == "C01|" ? "C19|planner|goal-lazy-rrt|" + k.substr(4) : k, w);
+        };
         vo::checkStatus(*P, st, 0, "RRT", fail);
         for (auto &sol : P->pdef->getSolutions())
+        {
+            curSol = &sol;
             vo::checkSolution(*P, sol, vpl::EXACT_EDGES, "RRT", fail);
+        }
+        curSol = nullptr;
         obs = st.asString() + " sols=" + std::to_string(P->pdef->getSolutionCount()) + " goals=" + std::to_string(goal->getStateCount());
         pl.reset();
         P->planner.reset();
